@@ -53,6 +53,8 @@ Loss == /\ Is("Loss") /\ l' = l + 1
         /\ ((Ev.base \in Exact /\ Ev.convex) => Ev.valz4 >= Ev.val4 + Dot(Ev.g4, [k \in DOMAIN Ev.o |-> Ev.z[k] - Ev.o[k]]))
         \* the transcendental losses: the driver's central-difference / tolerance oracles (environment predicates)
         /\ Ev.gradOK /\ Ev.convexOK /\ Ev.valueSame
+        \* the error rule on real-valued predictions (recomputed by the driver; exact on the lattice above)
+        /\ Ev.errOK
         /\ (IF Ev.ekind = "value" THEN Ev.err = Ev.val4 ELSE Ev.ekind = "none" \/ Ev.err = Err(Ev.ekind, Ev.t, Ev.o))                                        \* the decision rule of the 0-1 / absolute error
         /\ (Ev.base \in {"mse", "mae", "hinge", "squared-hinge"} => Ev.val4 = 2 * Val2(Ev.base, Ev.t, Ev.o, 0))
         /\ (Ev.base = "pinball" => Ev.val4 = SumSeq([k \in DOMAIN Ev.t |-> Ev.a4 * Max0(Ev.t[k] - Ev.o[k]) + (4 - Ev.a4) * Max0(Ev.o[k] - Ev.t[k])]))
